@@ -3,6 +3,7 @@ package rules
 import (
 	"fmt"
 	"go/ast"
+	"go/constant"
 	"go/token"
 	"go/types"
 	"strings"
@@ -96,9 +97,20 @@ func E11StuckVariables(c *core.Ctx, r *core.Report) {
 		}
 		// uses inside loops
 		var inLoop func(n ast.Node, depth int)
+		kinds := map[string]int{}
+		seenObj := map[types.Object]string{}
 		report := func(o types.Object, pos token.Pos, how string) {
 			total++
-			key := fmt.Sprintf("canvas.%s|%s", core.FuncName(fd), o.Name())
+			// key by role, not by the variable's name (renaming a local must not change the key)
+			role := "loop counter never advanced"
+			if strings.Contains(how, "slice bound") {
+				role = "slice bound never advanced"
+			}
+			if _, ok := seenObj[o]; !ok {
+				kinds[role]++
+				seenObj[o] = fmt.Sprintf("%s #%d", role, kinds[role])
+			}
+			key := fmt.Sprintf("canvas.%s|%s", core.FuncName(fd), seenObj[o])
 			r.Fail("E11.stuck", key, c.Pos(pos), fmt.Sprintf("`%s` is initialised to a constant and never assigned again, but %s; the loop cannot make progress on it (the query returns a default or panics instead of the requested segment)", o.Name(), how))
 		}
 		inLoop = func(n ast.Node, depth int) {
@@ -328,91 +340,27 @@ func E11ContextState(c *core.Ctx, r *core.Report) {
 
 	// Push / Pop
 	push := core.MustFuncDecl(p, "Context.Push")
-	okPush := false
-	if len(push.Body.List) == 1 {
-		if as, ok := push.Body.List[0].(*ast.AssignStmt); ok && len(as.Lhs) == 1 && len(as.Rhs) == 1 {
-			if types.ExprString(as.Lhs[0]) == "c.stack" && strings.ReplaceAll(types.ExprString(as.Rhs[0]), " ", "") == "append(c.stack,c.ContextState)" {
-				okPush = true
-			}
-		}
-	}
-	if okPush {
-		r.OK("E11.ctx-stack", "canvas.Context.Push", c.Pos(push.Pos()), "c.stack = append(c.stack, c.ContextState)")
+	if core.AlphaMatch("{$c.stack=append($c.stack,$c.ContextState)}", c.Norm(p, push.Body)) {
+		r.OK("E11.ctx-stack", "canvas.Context.Push", c.Pos(push.Pos()), "stack = append(stack, ContextState)")
 	} else {
 		r.Fail("E11.ctx-stack", "canvas.Context.Push", c.Pos(push.Pos()), "Push is not `c.stack = append(c.stack, c.ContextState)`: part of the state (style, view, coordinate view or system) would not be saved")
 	}
 	pop := core.MustFuncDecl(p, "Context.Pop")
-	guard, restore, shrink := false, false, false
-	for _, s := range pop.Body.List {
-		switch x := s.(type) {
-		case *ast.IfStmt:
-			if strings.ReplaceAll(types.ExprString(x.Cond), " ", "") == "len(c.stack)==0" && len(x.Body.List) == 1 {
-				if _, ok := x.Body.List[0].(*ast.ReturnStmt); ok {
-					guard = true
-				}
-			}
-		case *ast.AssignStmt:
-			if len(x.Lhs) == 1 && len(x.Rhs) == 1 {
-				l, rr := types.ExprString(x.Lhs[0]), strings.ReplaceAll(types.ExprString(x.Rhs[0]), " ", "")
-				if l == "c.ContextState" && rr == "c.stack[len(c.stack)-1]" && !shrink {
-					restore = true
-				}
-				if l == "c.stack" && rr == "c.stack[:len(c.stack)-1]" && restore {
-					shrink = true
-				}
-			}
-		}
-	}
-	if guard && restore && shrink && len(pop.Body.List) == 3 {
+	if core.AlphaMatch("{if len($c.stack)==0{return};$c.ContextState=$c.stack[len($c.stack)-1];$c.stack=$c.stack[:len($c.stack)-1]}", c.Norm(p, pop.Body)) {
 		r.OK("E11.ctx-stack", "canvas.Context.Pop", c.Pos(pop.Pos()), "guard; restore whole state; shrink by one")
 	} else {
-		r.Fail("E11.ctx-stack", "canvas.Context.Pop", c.Pos(pop.Pos()), fmt.Sprintf("Pop does not (guard=%v) return on an empty stack, (restore=%v) restore the whole ContextState from the last element and then (shrink=%v) drop exactly that element", guard, restore, shrink))
+		r.Fail("E11.ctx-stack", "canvas.Context.Pop", c.Pos(pop.Pos()), "Pop does not return on an empty stack, then restore the whole ContextState from the last element and then drop exactly that element")
 	}
 
 	// Fill / Stroke
-	for fn, cleared := range map[string]string{"Context.Fill": "c.Style.Stroke", "Context.Stroke": "c.Style.Fill"} {
+	for fn, cleared := range map[string]string{"Context.Fill": "Stroke", "Context.Stroke": "Fill"} {
 		fd := core.MustFuncDecl(p, fn)
 		key := "canvas." + fn
-		var saved string
-		stage := 0 // 1 saved, 2 cleared, 3 drawn, 4 restored
-		hasReturn := false
-		for _, s := range fd.Body.List {
-			switch x := s.(type) {
-			case *ast.ReturnStmt:
-				hasReturn = true
-			case *ast.AssignStmt:
-				if len(x.Lhs) != 1 || len(x.Rhs) != 1 {
-					continue
-				}
-				l, rr := types.ExprString(x.Lhs[0]), types.ExprString(x.Rhs[0])
-				switch {
-				case stage == 0 && x.Tok == token.DEFINE && rr == cleared:
-					saved, stage = l, 1
-				case stage == 1 && l == cleared && rr == "Paint{}":
-					stage = 2
-				case stage == 3 && l == cleared && rr == saved:
-					stage = 4
-				case l == "c.Style.Fill" || l == "c.Style.Stroke":
-					stage = -10 // some other paint is modified
-				}
-			case *ast.ExprStmt:
-				if call, ok := x.X.(*ast.CallExpr); ok {
-					if f := core.CalleeOf(info, call); f != nil && f.Name() == "DrawPath" && stage == 2 {
-						stage = 3
-					}
-				}
-			}
-		}
-		ast.Inspect(fd.Body, func(n ast.Node) bool {
-			if _, ok := n.(*ast.ReturnStmt); ok {
-				hasReturn = true
-			}
-			return true
-		})
-		if stage == 4 && !hasReturn {
-			r.OK("E11.ctx-restore", key, c.Pos(fd.Pos()), "save "+cleared+"; clear; DrawPath; restore")
+		pat := "{$s:=$c.Style." + cleared + ";$c.Style." + cleared + "=Paint{};$c.DrawPath(0.0,0.0,$c.path);$c.Style." + cleared + "=$s;$c.path=&Path{}}"
+		if core.AlphaMatch(pat, c.Norm(p, fd.Body)) {
+			r.OK("E11.ctx-restore", key, c.Pos(fd.Pos()), "save Style."+cleared+"; clear; DrawPath; restore; reset path")
 		} else {
-			r.Fail("E11.ctx-restore", key, c.Pos(fd.Pos()), fmt.Sprintf("%s does not save, clear and restore exactly %s around its DrawPath on every exit (reached stage %d, early return %v): a later draw would use the wrong paint", fn, cleared, stage, hasReturn))
+			r.Fail("E11.ctx-restore", key, c.Pos(fd.Pos()), fmt.Sprintf("%s does not save, clear and restore exactly Style.%s around its DrawPath on its single exit: a later draw would use the wrong paint", fn, cleared))
 		}
 	}
 }
@@ -424,34 +372,29 @@ func E11ViewComposition(c *core.Ctx, r *core.Report) {
 	p := c.MustPkg("")
 	info := p.TypesInfo
 	methods := []string{"Translate", "ReflectX", "ReflectXAbout", "ReflectY", "ReflectYAbout", "Rotate", "RotateAbout", "Scale", "ScaleAbout", "Shear", "ShearAbout"}
-	nosp := func(s string) string { return strings.ReplaceAll(s, " ", "") }
 	for _, m := range append([]string{"ComposeView"}, methods...) {
 		fd := core.MustFuncDecl(p, "Context."+m)
 		key := "canvas.Context." + m
 		r.Func(key)
-		var params []string
+		nparams := 0
 		for _, f := range fd.Type.Params.List {
-			for _, n := range f.Names {
-				params = append(params, n.Name)
-			}
+			nparams += len(f.Names)
 		}
-		want := "c.view.Mul(Identity." + m + "(" + strings.Join(params, ",") + "))"
+		var ls []string
+		for i := 1; i <= nparams; i++ {
+			ls = append(ls, fmt.Sprintf("L%d", i))
+		}
+		// normalised over the whole declaration: receiver is L0, parameters L1..Lk in order
+		want := "{L0.view=L0.view.Mul(Identity." + m + "(" + strings.Join(ls, ",") + "))}"
 		if m == "ComposeView" {
-			want = "c.view.Mul(" + params[0] + ")"
+			want = "{L0.view=L0.view.Mul(L1)}"
 		}
-		ok := false
-		got := ""
-		if len(fd.Body.List) == 1 {
-			if as, isAs := fd.Body.List[0].(*ast.AssignStmt); isAs && as.Tok == token.ASSIGN && len(as.Lhs) == 1 && len(as.Rhs) == 1 && types.ExprString(as.Lhs[0]) == "c.view" {
-				got = nosp(types.ExprString(as.Rhs[0]))
-				ok = got == want
-			}
-		}
+		got := c.Norm(p, fd)
 		r.Count("E11.view-methods", 1)
-		if ok {
-			r.OK("E11.view-postmul", key, c.Pos(fd.Pos()), want)
+		if strings.HasSuffix(got, want) {
+			r.OK("E11.view-postmul", key, c.Pos(fd.Pos()), "view = view.Mul(Identity."+m+"(parameters in order))")
 		} else {
-			r.Fail("E11.view-postmul", key, c.Pos(fd.Pos()), fmt.Sprintf("body is `%s`, expected `c.view = %s` (post-multiplication by the transformation of the same name, parameters in order)", got, want))
+			r.Fail("E11.view-postmul", key, c.Pos(fd.Pos()), fmt.Sprintf("the method is `%s`; expected the body `view = view.Mul(Identity.%s(own parameters in order))` (post-multiplication by the transformation of the same name)", got, m))
 		}
 	}
 	r.Floor("E11.view-methods", 12)
@@ -490,35 +433,17 @@ func E11ViewComposition(c *core.Ctx, r *core.Report) {
 		fd := core.MustFuncDecl(p, "Context."+fn)
 		key := "canvas.Context." + fn
 		r.Func(key)
-		// unfold the chain that ends in .Translate(coord.X, coord.Y)
-		defs := map[string]string{}
-		var chainStr string
-		coordOK := false
-		for _, s := range fd.Body.List {
-			as, ok := s.(*ast.AssignStmt)
-			if !ok || len(as.Lhs) != 1 || len(as.Rhs) != 1 {
-				continue
-			}
-			l, rr := types.ExprString(as.Lhs[0]), nosp(c.Src(as.Rhs[0]))
-			if l == "coord" {
-				coordOK = strings.HasPrefix(rr, "c.coordView.Dot(Point{") && (strings.Contains(rr, "{x,y}") || strings.Contains(rr, "{X:x,Y:y}"))
-			}
-			if strings.Contains(rr, ".Translate(coord.X,coord.Y)") && chainStr == "" {
-				// substitute a leading local by its definition
-				for name, d := range defs {
-					if strings.HasPrefix(rr, name+".") {
-						rr = d + rr[len(name):]
-					}
-				}
-				chainStr = rr
-			}
-			defs[l] = rr
+		norm := c.Norm(p, fd)
+		okCoord := core.AlphaContains("$coord:=$c.coordView.Dot(Point{$x,$y})", norm)
+		okChain := core.AlphaContains("$m:=$c.CoordSystemView().Mul($c.view).Translate($coord.X,$coord.Y)", norm)
+		if !okChain {
+			// DrawPath builds it in two steps
+			_, okChain = core.AlphaSeq(norm, "$m:=$c.CoordSystemView();", "$m=$m.Mul($c.view).Translate($coord.X,$coord.Y)")
 		}
-		want := "c.CoordSystemView().Mul(c.view).Translate(coord.X,coord.Y)"
-		if chainStr == want && coordOK {
-			r.OK("E11.draw-matrix", key+"|matrix", c.Pos(fd.Pos()), want)
+		if okCoord && okChain {
+			r.OK("E11.draw-matrix", key+"|matrix", c.Pos(fd.Pos()), "CoordSystemView().Mul(view).Translate(coordView.Dot(x,y))")
 		} else {
-			r.Fail("E11.draw-matrix", key+"|matrix", c.Pos(fd.Pos()), fmt.Sprintf("the draw matrix is `%s` (coord from coordView.Dot(x,y): %v); the sibling entry points use `%s`", chainStr, coordOK, want))
+			r.Fail("E11.draw-matrix", key+"|matrix", c.Pos(fd.Pos()), fmt.Sprintf("the draw matrix is not assembled as CoordSystemView().Mul(view).Translate(coord.X, coord.Y) with coord := coordView.Dot(Point{x, y}) (coord: %v, chain: %v), unlike its sibling entry points", okCoord, okChain))
 		}
 		if fn == "DrawPath" {
 			continue
@@ -534,7 +459,12 @@ func E11ViewComposition(c *core.Ctx, r *core.Report) {
 			if !isAs || len(bas.Rhs) != 1 {
 				continue
 			}
-			body := nosp(types.ExprString(bas.Rhs[0]))
+			body := ""
+			if bc, isCall := core.Unparen(bas.Rhs[0]).(*ast.CallExpr); isCall {
+				if bse, isSel := bc.Fun.(*ast.SelectorExpr); isSel {
+					body = "m." + bse.Sel.Name
+				}
+			}
 			set := map[string]bool{}
 			okCond := true
 			var collect func(e ast.Expr)
@@ -549,7 +479,7 @@ func E11ViewComposition(c *core.Ctx, r *core.Report) {
 					collect(be.Y)
 					return
 				}
-				if be.Op == token.EQL && types.ExprString(be.X) == "c.coordSystem" {
+				if se, isSel := core.Unparen(be.X).(*ast.SelectorExpr); isSel && be.Op == token.EQL && se.Sel.Name == "coordSystem" {
 					set[core.ConstName(info, be.Y)] = true
 					return
 				}
@@ -585,80 +515,40 @@ func E11Replay(c *core.Ctx, r *core.Report) {
 	info := p.TypesInfo
 	fd := core.MustFuncDecl(p, "Canvas.RenderViewTo")
 	r.Func("canvas.Canvas.RenderViewTo")
-	stage := 0
-	var zs string
+	norm := c.Norm(p, fd)
 	bad := ""
-	for _, s := range fd.Body.List {
-		switch x := s.(type) {
-		case *ast.RangeStmt:
-			_, isMap := info.TypeOf(x.X).Underlying().(*types.Map)
-			hasRender := false
-			ast.Inspect(x.Body, func(n ast.Node) bool {
-				if call, ok := n.(*ast.CallExpr); ok {
-					if se, ok := call.Fun.(*ast.SelectorExpr); ok && strings.HasPrefix(se.Sel.Name, "Render") {
-						hasRender = true
-					}
-				}
-				return true
-			})
-			if isMap {
-				if hasRender {
+	// no renderer call inside a range over the layers map
+	ast.Inspect(fd.Body, func(n ast.Node) bool {
+		rs, ok := n.(*ast.RangeStmt)
+		if !ok {
+			return true
+		}
+		if _, isMap := info.TypeOf(rs.X).Underlying().(*types.Map); !isMap {
+			return true
+		}
+		ast.Inspect(rs.Body, func(m ast.Node) bool {
+			if call, ok := m.(*ast.CallExpr); ok {
+				if se, ok := call.Fun.(*ast.SelectorExpr); ok && strings.HasPrefix(se.Sel.Name, "Render") {
 					bad = "the renderer is called inside a range over the layers map (random order)"
 				}
-				if stage == 1 && x.Value == nil {
-					stage = 2
-				}
-			} else if hasRender {
-				if stage == 3 && types.ExprString(x.X) == zs {
-					// inner loop must range over c.layers[zindex] by index order
-					inner := false
-					for _, is := range x.Body.List {
-						if ir, ok := is.(*ast.RangeStmt); ok && strings.HasPrefix(types.ExprString(ir.X), "c.layers[") {
-							inner = true
-						}
-					}
-					if inner {
-						stage = 4
-					}
-				} else {
-					bad = "renderer calls happen before the z-indices are sorted"
-				}
 			}
-		case *ast.AssignStmt:
-			if stage == 0 && len(x.Lhs) == 1 {
-				zs = types.ExprString(x.Lhs[0])
-				stage = 1
-			}
-		case *ast.ExprStmt:
-			if call, ok := x.X.(*ast.CallExpr); ok && stage == 2 {
-				if f := core.CalleeOf(info, call); f != nil && f.Pkg() != nil && f.Pkg().Path() == "sort" && f.Name() == "Ints" && types.ExprString(call.Args[0]) == zs {
-					stage = 3
-				}
-			}
-		}
-	}
-	if stage == 4 && bad == "" {
+			return true
+		})
+		return true
+	})
+	_, seq := core.AlphaSeq(norm, "for $z:=range $c.layers{$zs=append($zs,$z)}", "sort.Ints($zs)", "for _,$z2:=range $zs{for _,$l:=range $c.layers[$z2]{", "$r.RenderPath($l.path,$l.style,", "$r.RenderText($l.text,", "$r.RenderImage($l.img,")
+	if seq && bad == "" {
 		r.OK("E11.replay-order", "canvas.Canvas.RenderViewTo", c.Pos(fd.Pos()), "collect z-indices; sort.Ints; replay per z-index in slice order")
 	} else {
 		if bad == "" {
-			bad = fmt.Sprintf("the collect / sort.Ints / replay sequence was not found (stage %d)", stage)
+			bad = "the sequence collect z-indices / sort.Ints / for each z-index replay its layer slice in order was not found"
 		}
 		r.Fail("E11.replay-order", "canvas.Canvas.RenderViewTo", c.Pos(fd.Pos()), bad)
 	}
 	// recording appends
 	for _, m := range []string{"RenderPath", "RenderText", "RenderImage"} {
 		fd := core.MustFuncDecl(p, "Canvas."+m)
-		ok := false
-		ast.Inspect(fd.Body, func(n ast.Node) bool {
-			if as, isAs := n.(*ast.AssignStmt); isAs && len(as.Lhs) == 1 && len(as.Rhs) == 1 {
-				l := strings.ReplaceAll(types.ExprString(as.Lhs[0]), " ", "")
-				rr := strings.ReplaceAll(types.ExprString(as.Rhs[0]), " ", "")
-				if l == "c.layers[c.zindex]" && strings.HasPrefix(rr, "append(c.layers[c.zindex],") {
-					ok = true
-				}
-			}
-			return true
-		})
+		ok := core.AlphaContains("$c.layers[$c.zindex]=append($c.layers[$c.zindex],", c.Norm(p, fd))
 		key := "canvas.Canvas." + m + "|records in drawing order"
 		if ok {
 			r.OK("E11.replay-order", key, c.Pos(fd.Pos()), "c.layers[c.zindex] = append(c.layers[c.zindex], …)")
@@ -746,3 +636,431 @@ func E11CutCarried(c *core.Ctx, r *core.Report) {
 	r.Count("E11.cut-loops", n)
 	r.Floor("E11.cut-loops", 3)
 }
+
+// E11CapJoin: closed sub-paths are joined and never capped; open ones are capped iff stroking.
+func E11CapJoin(c *core.Ctx, r *core.Report) {
+	r.Rule("E11.cap-join", "(*Path).offset: `closed` is set exactly in the Close case of the decoder; every Capper.Cap call is control-dependent on `!closed && strokeOpen` (the else-if branch of `if closed`), once at the last end point/normal and once at the first point with the negated first normal; the join condition includes the wrap-around `|| closed` to states[0]; the closed branch closes both offset curves; Stroke passes strokeOpen=true with its own capper/joiner, Offset passes false")
+	p := c.MustPkg("")
+	info := p.TypesInfo
+	fd := core.MustFuncDecl(p, "Path.offset")
+	r.Func("canvas.Path.offset")
+	crObj, jrObj, soObj := paramObj(info, fd, 1), paramObj(info, fd, 2), paramObj(info, fd, 3)
+	nosp := func(n ast.Node) string { return squash(c.Src(n)) }
+	_ = nosp
+	// (c) closed assignments
+	var closedObj types.Object
+	for _, s := range fd.Body.List {
+		if as, ok := s.(*ast.AssignStmt); ok && as.Tok == token.DEFINE && len(as.Lhs) == 1 {
+			if id, ok := as.Lhs[0].(*ast.Ident); ok {
+				if cid, isId := core.Unparen(as.Rhs[0]).(*ast.Ident); isId && cid.Name == "false" {
+					closedObj = info.Defs[id] // the first bool local initialised to false
+				}
+			}
+		}
+	}
+	if closedObj == nil || crObj == nil || jrObj == nil || soObj == nil {
+		panic(core.Infra("offset: closed/cr/jr/strokeOpen not found"))
+	}
+	okClosed, badClosed := 0, 0
+	for _, cc := range cmdSwitchClauses(p, fd) {
+		isClose := false
+		for _, k := range core.CaseConsts(info, cc) {
+			if k == "CloseCmd" {
+				isClose = true
+			}
+		}
+		ast.Inspect(cc, func(n ast.Node) bool {
+			if as, ok := n.(*ast.AssignStmt); ok && as.Tok == token.ASSIGN {
+				for i, l := range as.Lhs {
+					if id, ok := l.(*ast.Ident); ok && core.ObjOf(info, id) == closedObj {
+						if isClose && nosp(as.Rhs[i]) == "true" {
+							okClosed++
+						} else {
+							badClosed++
+						}
+					}
+				}
+			}
+			return true
+		})
+	}
+	// any assignment outside the command switch?
+	total := 0
+	ast.Inspect(fd.Body, func(n ast.Node) bool {
+		if as, ok := n.(*ast.AssignStmt); ok && as.Tok == token.ASSIGN {
+			for _, l := range as.Lhs {
+				if id, ok := l.(*ast.Ident); ok && core.ObjOf(info, id) == closedObj {
+					total++
+				}
+			}
+		}
+		return true
+	})
+	if okClosed >= 1 && badClosed == 0 && total == okClosed {
+		r.OK("E11.cap-join", "canvas.Path.offset|closed flag", c.Pos(fd.Pos()), "set to true only in case CloseCmd")
+	} else {
+		r.Fail("E11.cap-join", "canvas.Path.offset|closed flag", c.Pos(fd.Pos()), fmt.Sprintf("`closed` is assigned %d times, %d of them `= true` inside the CloseCmd case: open and closed sub-paths are confused", total, okClosed))
+	}
+	// (a) caps under else-if strokeOpen of `if closed`
+	var closedIf *ast.IfStmt
+	for _, s := range fd.Body.List {
+		if is, ok := s.(*ast.IfStmt); ok {
+			if id, ok := core.Unparen(is.Cond).(*ast.Ident); ok && core.ObjOf(info, id) == closedObj {
+				closedIf = is
+			}
+		}
+	}
+	var caps []*ast.CallExpr
+	ast.Inspect(fd.Body, func(n ast.Node) bool {
+		if call, ok := n.(*ast.CallExpr); ok {
+			if se, ok := call.Fun.(*ast.SelectorExpr); ok && se.Sel.Name == "Cap" {
+				if id, ok := core.Unparen(se.X).(*ast.Ident); ok && core.ObjOf(info, id) == crObj {
+					caps = append(caps, call)
+				}
+			}
+		}
+		return true
+	})
+	r.Count("E11.cap-calls", len(caps))
+	if closedIf == nil {
+		r.Fail("E11.cap-join", "canvas.Path.offset|if closed", c.Pos(fd.Pos()), "no `if closed { … } else if strokeOpen { … }` statement at the end of offset")
+		return
+	}
+	var openBranch *ast.IfStmt
+	if ei, ok := closedIf.Else.(*ast.IfStmt); ok {
+		if id, ok := core.Unparen(ei.Cond).(*ast.Ident); ok && core.ObjOf(info, id) == soObj {
+			openBranch = ei
+		}
+	}
+	for i, call := range caps {
+		key := fmt.Sprintf("canvas.Path.offset|Cap call #%d", i+1)
+		if openBranch != nil && call.Pos() >= openBranch.Body.Pos() && call.End() <= openBranch.Body.End() {
+			r.OK("E11.cap-join", key, c.Pos(call.Pos()), "inside `else if strokeOpen` of `if closed`")
+		} else {
+			r.Fail("E11.cap-join", key, c.Pos(call.Pos()), "a cap is added outside the `!closed && strokeOpen` branch: closed sub-paths (or pure offsets) would get caps")
+		}
+	}
+	norm := c.Norm(p, fd)
+	if len(caps) == 2 {
+		_, seq := core.AlphaSeq(norm, "$cr.Cap($rhs,$hw,$st[len($st)-1].p1,$st[len($st)-1].n1)", "$cr.Cap($rhs,$hw,$st[0].p0,$st[0].n0.Neg())")
+		if seq {
+			r.OK("E11.cap-join", "canvas.Path.offset|cap positions", c.Pos(caps[0].Pos()), "end cap at last p1/n1, start cap at first p0/-n0")
+		} else {
+			r.Fail("E11.cap-join", "canvas.Path.offset|cap positions", c.Pos(caps[0].Pos()), "the two caps are not placed at (last end point, last normal) and (first start point, negated first normal)")
+		}
+	} else {
+		r.Fail("E11.cap-join", "canvas.Path.offset|cap positions", c.Pos(fd.Pos()), fmt.Sprintf("expected two Cap calls (end and start), found %d", len(caps)))
+	}
+	// closed branch closes both sides
+	cb := c.Norm(p, closedIf.Body)
+	if core.AlphaContains("$rhs.Close();$lhs.Close()", cb) {
+		r.OK("E11.cap-join", "canvas.Path.offset|closed branch closes both curves", c.Pos(closedIf.Pos()), "")
+	} else {
+		r.Fail("E11.cap-join", "canvas.Path.offset|closed branch closes both curves", c.Pos(closedIf.Pos()), "a closed sub-path must yield closed right- and left-hand offset curves")
+	}
+	// (b) wrap-around join
+	if core.AlphaContains("if $i+1<len($st)||$closed{$next:=$st[0];if $i+1<len($st){$next=$st[$i+1]}", norm) {
+		r.OK("E11.cap-join", "canvas.Path.offset|wrap-around join", c.Pos(fd.Pos()), "join when i+1 < len(states) || closed, with next = states[0] at the end of a closed sub-path")
+	} else {
+		r.Fail("E11.cap-join", "canvas.Path.offset|wrap-around join", c.Pos(fd.Pos()), "the Joiner is not applied between the last and the first segment of a closed sub-path (condition `i+1 < len(states) || closed`, next = states[0])")
+	}
+	// (d) callers
+	for fn, want := range map[string]string{"Path.Stroke": "$pi.offset($hw,$cr,$jr,true,$tol)", "Path.Offset": "$pi.offset($w,ButtCap,RoundJoin,false,$tol)"} {
+		f2 := core.MustFuncDecl(p, fn)
+		key := "canvas." + fn + "|offset call"
+		ok := core.AlphaContains(want, c.Norm(p, f2))
+		// Stroke must forward its own capper/joiner parameters
+		if ok && fn == "Path.Stroke" {
+			ok = false
+			ast.Inspect(f2.Body, func(n ast.Node) bool {
+				if call, isCall := n.(*ast.CallExpr); isCall && len(call.Args) == 5 {
+					if f := core.CalleeOf(info, call); f != nil && f.Name() == "offset" {
+						a1, _ := core.Unparen(call.Args[1]).(*ast.Ident)
+						a2, _ := core.Unparen(call.Args[2]).(*ast.Ident)
+						if a1 != nil && a2 != nil && core.ObjOf(info, a1) == paramObj(info, f2, 1) && core.ObjOf(info, a2) == paramObj(info, f2, 2) {
+							ok = true
+						}
+					}
+				}
+				return true
+			})
+		}
+		if ok {
+			r.OK("E11.cap-join", key, c.Pos(f2.Pos()), want)
+		} else {
+			r.Fail("E11.cap-join", key, c.Pos(f2.Pos()), fmt.Sprintf("does not call `%s` (Stroke caps open sub-paths with its own capper/joiner, Offset never caps)", want))
+		}
+	}
+	r.Floor("E11.cap-calls", 2)
+}
+
+// E11DashIndependence: in Dash the per-sub-path state is re-initialised in every iteration.
+func E11DashIndependence(c *core.Ctx, r *core.Report) {
+	r.Rule("E11.dash-independent", "Path.Dash: every variable assigned inside the `for … range p.Split()` loop and read in it is declared inside the loop, except the output accumulator; so the phase, pattern index and cut list of one sub-path cannot depend on the previous sub-path (each starts from the same i0/pos0)")
+	p := c.MustPkg("")
+	info := p.TypesInfo
+	fd := core.MustFuncDecl(p, "Path.Dash")
+	r.Func("canvas.Path.Dash")
+	var loop *ast.RangeStmt
+	for _, s := range fd.Body.List {
+		if rs, ok := s.(*ast.RangeStmt); ok && strings.ReplaceAll(types.ExprString(rs.X), " ", "") == "p.Split()" {
+			loop = rs
+		}
+	}
+	if loop == nil {
+		panic(core.Infra("Dash: range p.Split() loop not found"))
+	}
+	// variables assigned in the loop but declared outside it
+	carried := map[types.Object]token.Pos{}
+	ast.Inspect(loop.Body, func(n ast.Node) bool {
+		switch x := n.(type) {
+		case *ast.AssignStmt:
+			if x.Tok == token.DEFINE {
+				return true
+			}
+			for _, l := range x.Lhs {
+				if id, ok := l.(*ast.Ident); ok {
+					if o := core.ObjOf(info, id); o != nil && (o.Pos() < loop.Pos() || o.Pos() > loop.End()) {
+						carried[o] = x.Pos()
+					}
+				}
+			}
+		case *ast.IncDecStmt:
+			if id, ok := x.X.(*ast.Ident); ok {
+				if o := core.ObjOf(info, id); o != nil && (o.Pos() < loop.Pos() || o.Pos() > loop.End()) {
+					carried[o] = x.Pos()
+				}
+			}
+		}
+		return true
+	})
+	// the accumulator: the variable returned by the function
+	var acc types.Object
+	if ret, ok := fd.Body.List[len(fd.Body.List)-1].(*ast.ReturnStmt); ok && len(ret.Results) == 1 {
+		if id, ok := ret.Results[0].(*ast.Ident); ok {
+			acc = core.ObjOf(info, id)
+		}
+	}
+	n := 0
+	for o, pos := range carried {
+		n++
+		key := "canvas.Path.Dash|loop-carried " + o.Name()
+		if o == acc {
+			r.OK("E11.dash-independent", key, c.Pos(pos), "the output accumulator")
+		} else {
+			r.Fail("E11.dash-independent", key, c.Pos(pos), fmt.Sprintf("`%s` is declared outside the sub-path loop and assigned inside it: the dashing of one sub-path depends on where the previous sub-path ended", o.Name()))
+		}
+	}
+	if acc == nil || carried[acc] == token.NoPos {
+		r.Fail("E11.dash-independent", "canvas.Path.Dash|accumulator", c.Pos(loop.Pos()), "the returned path is not accumulated inside the sub-path loop")
+	}
+	// the per-sub-path state starts from the pattern start computed once
+	_, okStart := core.AlphaSeq(c.Norm(p, fd), "$i0,$pos0:=dashStart(", "for _,$ps:=range $p.Split(){$i:=$i0;$pos:=$pos0;")
+	if okStart {
+		r.OK("E11.dash-independent", "canvas.Path.Dash|per-sub-path start", c.Pos(loop.Pos()), "i := i0; pos := pos0 at the top of every iteration")
+	} else {
+		r.Fail("E11.dash-independent", "canvas.Path.Dash|per-sub-path start", c.Pos(loop.Pos()), "the pattern index/phase are not re-initialised from (i0, pos0) for every sub-path")
+	}
+	r.Count("E11.dash-carried", n)
+	r.Floor("E11.dash-carried", 1)
+}
+
+// evalFloatWith evaluates an arithmetic expression over constants with one variable bound.
+func evalFloatWith(info *types.Info, e ast.Expr, v types.Object, val float64) (float64, bool) {
+	e = core.Unparen(e)
+	if cv := core.ConstVal(info, e); cv != nil {
+		f, _ := constantFloat(cv)
+		return f, true
+	}
+	switch x := e.(type) {
+	case *ast.Ident:
+		if core.ObjOf(info, x) == v {
+			return val, true
+		}
+	case *ast.BinaryExpr:
+		a, ok1 := evalFloatWith(info, x.X, v, val)
+		b, ok2 := evalFloatWith(info, x.Y, v, val)
+		if !ok1 || !ok2 {
+			return 0, false
+		}
+		switch x.Op {
+		case token.MUL:
+			return a * b, true
+		case token.QUO:
+			return a / b, true
+		case token.ADD:
+			return a + b, true
+		case token.SUB:
+			return a - b, true
+		}
+	}
+	return 0, false
+}
+
+// E11SVGUnits: the unit tables of the SVG importer.
+func E11SVGUnits(c *core.Ctx, r *core.Report) {
+	r.Rule("E11.svg-dimension", "svgParser.parseDimension: each unit case returns num times the CSS factor to pixels (cm 96/2.54, mm 96/25.4, q 96/101.6, in 96, pc 16, pt 96/72, px 1) or to degrees (deg 1, grad 0.9, rad 180/π, turn 360); evaluated by constant folding with num = 1")
+	r.Rule("E11.svg-size", "parseViewBox converts both the explicit width/height (pixels from parseDimension) and the viewBox fallback to millimetres with the same factor 25.4/96; init converts back with the inverse factor, selects the y-down coordinate system CartesianIV, and scales user units by size/viewBox (pixels to millimetres without a viewBox)")
+	r.Rule("E11.svg-elements", "drawShape has a case for every basic shape of the property's grammar (rect, circle, ellipse, line, polyline, polygon, path)")
+	p := c.MustPkg("")
+	info := p.TypesInfo
+	fd := core.MustFuncDecl(p, "svgParser.parseDimension")
+	r.Func("canvas.svgParser.parseDimension")
+	want := map[string]float64{"cm": 96 / 2.54, "mm": 96 / 25.4, "q": 96 / 25.4 / 4, "in": 96, "pc": 16, "pt": 96.0 / 72, "px": 1, "": 1,
+		"deg": 1, "grad": 0.9, "rad": 180 / 3.141592653589793, "turn": 360}
+	var numObj types.Object
+	ast.Inspect(fd.Body, func(n ast.Node) bool {
+		if as, ok := n.(*ast.AssignStmt); ok && as.Tok == token.DEFINE && len(as.Lhs) == 2 {
+			if id, ok := as.Lhs[0].(*ast.Ident); ok && id.Name == "num" {
+				numObj = info.Defs[id]
+			}
+		}
+		return true
+	})
+	seen := map[string]bool{}
+	ast.Inspect(fd.Body, func(n ast.Node) bool {
+		cc, ok := n.(*ast.CaseClause)
+		if !ok || len(cc.Body) != 1 {
+			return true
+		}
+		ret, ok := cc.Body[0].(*ast.ReturnStmt)
+		if !ok || len(ret.Results) != 1 {
+			return true
+		}
+		for _, e := range cc.List {
+			unit, ok := constString(info, e)
+			if !ok {
+				continue
+			}
+			w, known := want[unit]
+			if !known {
+				continue
+			}
+			seen[unit] = true
+			r.Count("E11.svg-unit-cases", 1)
+			key := fmt.Sprintf("canvas.svgParser.parseDimension|unit %q", unit)
+			got, ok := evalFloatWith(info, ret.Results[0], numObj, 1.0)
+			if !ok {
+				r.Fail("E11.svg-dimension", key, c.Pos(ret.Pos()), "factor expression `"+types.ExprString(ret.Results[0])+"` cannot be folded")
+			} else if diff := got - w; diff > 1e-9*w || diff < -1e-9*w {
+				r.Fail("E11.svg-dimension", key, c.Pos(ret.Pos()), fmt.Sprintf("1%s is converted to %.10g, CSS defines %.10g", unit, got, w))
+			} else {
+				r.OK("E11.svg-dimension", key, c.Pos(ret.Pos()), fmt.Sprintf("%.6g", got))
+			}
+		}
+		return true
+	})
+	for u := range want {
+		if !seen[u] {
+			r.Fail("E11.svg-dimension", fmt.Sprintf("canvas.svgParser.parseDimension|unit %q", u), c.Pos(fd.Pos()), "no case for this unit")
+		}
+	}
+	r.Floor("E11.svg-unit-cases", 12)
+	// parseViewBox: width/height in mm on both branches
+	vb := core.MustFuncDecl(p, "svgParser.parseViewBox")
+	nosp := func(n ast.Node) string { return squash(c.Src(n)) }
+	var retIDs [2]types.Object
+	if ret, ok := vb.Body.List[len(vb.Body.List)-1].(*ast.ReturnStmt); ok && len(ret.Results) == 3 {
+		for i := 0; i < 2; i++ {
+			if id, ok := ret.Results[i].(*ast.Ident); ok {
+				retIDs[i] = core.ObjOf(info, id)
+			}
+		}
+	}
+	for di, dim := range []string{"width", "height"} {
+		var exprs []string
+		ast.Inspect(vb.Body, func(n ast.Node) bool {
+			if as, ok := n.(*ast.AssignStmt); ok && as.Tok == token.ASSIGN && len(as.Lhs) == 1 {
+				if id, ok := as.Lhs[0].(*ast.Ident); ok && retIDs[di] != nil && core.ObjOf(info, id) == retIDs[di] {
+					exprs = append(exprs, nosp(as.Rhs[0]))
+				}
+			}
+			return true
+		})
+		key := "canvas.svgParser.parseViewBox|" + dim + " in millimetres"
+		okAll := len(exprs) == 2
+		for _, e := range exprs {
+			if !strings.HasSuffix(e, "*25.4/96.0") {
+				okAll = false
+			}
+		}
+		if okAll {
+			r.OK("E11.svg-size", key, c.Pos(vb.Pos()), strings.Join(exprs, " | "))
+		} else {
+			r.Fail("E11.svg-size", key, c.Pos(vb.Pos()), fmt.Sprintf("the assignments to %s are %v: every branch must convert pixels to millimetres (×25.4/96); otherwise the canvas size is 96/25.4 times too large for documents that state their size", dim, exprs))
+		}
+	}
+	in := core.MustFuncDecl(p, "svgParser.init")
+	body := c.Norm(p, in)
+	checks := []struct{ key, needle, msg string }{
+		{"inverse factor", "$s.width,$s.height=$w*96.0/25.4,$h*96.0/25.4", "init must convert the millimetre size back to pixels with the inverse factor 96/25.4 (percentages resolve against it)"},
+		{"y-down", "$s.ctx.SetCoordSystem(CartesianIV)", "SVG's y axis points down: the importer must select CartesianIV"},
+		{"canvas size", "$s.c=New($w,$h)", "the canvas must be created with the millimetre size"},
+		{"viewBox scale", "Identity.Scale($w/($vb[2]-$vb[0]),$h/($vb[3]-$vb[1])).Translate(-$vb[0],-$vb[1])", "user units must be scaled by size/viewBox and shifted by the viewBox origin"},
+		{"pixel user units", "Identity.Scale(25.4/96.0,25.4/96.0)", "without a viewBox user units are pixels and must be scaled to millimetres"},
+	}
+	for _, ck := range checks {
+		key := "canvas.svgParser.init|" + ck.key
+		if core.AlphaContains(ck.needle, body) {
+			r.OK("E11.svg-size", key, c.Pos(in.Pos()), ck.needle)
+		} else {
+			r.Fail("E11.svg-size", key, c.Pos(in.Pos()), ck.msg)
+		}
+	}
+	// elements
+	ds := core.MustFuncDecl(p, "svgParser.drawShape")
+	tags := map[string]bool{}
+	ast.Inspect(ds.Body, func(n ast.Node) bool {
+		if cc, ok := n.(*ast.CaseClause); ok {
+			for _, e := range cc.List {
+				if s, ok := constString(info, e); ok {
+					tags[s] = true
+				}
+			}
+		}
+		return true
+	})
+	for _, t := range []string{"rect", "circle", "ellipse", "line", "polyline", "polygon", "path"} {
+		key := "canvas.svgParser.drawShape|<" + t + ">"
+		if tags[t] {
+			r.OK("E11.svg-elements", key, c.Pos(ds.Pos()), "")
+		} else {
+			r.Fail("E11.svg-elements", key, c.Pos(ds.Pos()), "no case draws <"+t+"> elements")
+		}
+	}
+}
+
+// E11Subsetter: glyph subsetter invariants.
+func E11Subsetter(c *core.Ctx, r *core.Report) {
+	r.Rule("E11.subsetter", "FontSubsetter: .notdef (glyph 0) is at index 0 of IDs and mapped 0→0 by the constructor; Get returns the existing code on a hit and, on a miss only, assigns len(IDs) before the append as the new code, appends the glyph and records the mapping (one stable code per glyph)")
+	p := c.MustPkg("")
+	nosp := func(n ast.Node) string { return squash(c.Src(n)) }
+	ctor := core.MustFuncDecl(p, "NewFontSubsetter")
+	cb := nosp(ctor.Body)
+	if strings.Contains(cb, "IDs:[]uint16{0}") && strings.Contains(cb, "IDMap:map[uint16]uint16{0:0}") {
+		r.OK("E11.subsetter", "canvas.NewFontSubsetter|.notdef at zero", c.Pos(ctor.Pos()), "IDs: {0}, IDMap: {0: 0}")
+	} else {
+		r.Fail("E11.subsetter", "canvas.NewFontSubsetter|.notdef at zero", c.Pos(ctor.Pos()), "the subsetter does not start with glyph 0 (.notdef) at code 0")
+	}
+	get := core.MustFuncDecl(p, "FontSubsetter.Get")
+	r.Func("canvas.FontSubsetter.Get")
+	okGet := core.AlphaMatch("{if $old,$ok:=$s.IDMap[$g];$ok{return $old};$new:=uint16(len($s.IDs));$s.IDs=append($s.IDs,$g);$s.IDMap[$g]=$new;return $new}", c.Norm(p, get.Body))
+	if okGet {
+		r.OK("E11.subsetter", "canvas.FontSubsetter.Get|stable codes", c.Pos(get.Pos()), "hit returns; miss: code = len(IDs); append; record; return")
+	} else {
+		r.Fail("E11.subsetter", "canvas.FontSubsetter.Get|stable codes", c.Pos(get.Pos()), "Get is not `hit → return existing code; miss → code := len(IDs), append glyph, record mapping, return code`: codes could be reassigned or skip the append order that List() relies on")
+	}
+	list := core.MustFuncDecl(p, "FontSubsetter.List")
+	if core.AlphaMatch("{return $s.IDs}", c.Norm(p, list.Body)) {
+		r.OK("E11.subsetter", "canvas.FontSubsetter.List", c.Pos(list.Pos()), "returns IDs in code order")
+	} else {
+		r.Fail("E11.subsetter", "canvas.FontSubsetter.List", c.Pos(list.Pos()), "List does not return the glyphs in the order of their codes")
+	}
+}
+
+func constantFloat(v constant.Value) (float64, bool) {
+	return constant.Float64Val(constant.ToFloat(v))
+}
+
+// squash removes all whitespace.
+func squash(s string) string { return strings.Join(strings.Fields(s), "") }
